@@ -160,6 +160,28 @@ impl LeastSquaresProblem<f64, Dyn, U6> for PointsToMesh<'_> {
     }
 }
 
+/// Verification hook: builds the private problem, applies `history` through `set_params` and
+/// returns what the solver would observe: (params, residuals, jacobian column-major, transform)
+#[cfg(feature = "verif")]
+pub fn verif_observe(
+    points: &[Point3],
+    mesh: &Mesh,
+    initial: &Iso3,
+    mode: DistMode,
+    history: &[[f64; 6]],
+) -> (Vec<f64>, Vec<f64>, Vec<f64>, Iso3) {
+    let mut problem = PointsToMesh::new(points, mesh, initial, mode);
+    for h in history {
+        problem.set_params(&T3Storage::new(h[0], h[1], h[2], h[3], h[4], h[5]));
+    }
+    (
+        problem.params().as_slice().to_vec(),
+        problem.residuals().unwrap().as_slice().to_vec(),
+        problem.jacobian().unwrap().as_slice().to_vec(),
+        problem.current_transform(),
+    )
+}
+
 #[cfg(test)]
 mod tests {
     use super::*;
